@@ -42,6 +42,12 @@ def obligations(tier):
            call="props.c17:ob_pp"),
         Ob("C17.fmt", "N", "compact date-time text yyyymmddhhmmss + fraction digits -> ISO 8601 of the same instant (scene centre: ms digits, volume creation: 1/100 s digits)",
            ["ceos_alos2.transformers:normalize_datetime"], bounds="forall digit strings with valid zero-padded fields, 2..3 fraction digits", call="props.c17:ob_fmt"),
+        Ob("C17.fields", "L", "every time-bearing field is read from its documented byte positions with its documented width and decoder (a stamp's last digit does not fall "
+           "into a neighbouring spare): scene centre, platform-position first point, attitude point time, per-line ms / us stamps, volume creation time",
+           ["ceos_alos2.sar_leader.dataset_summary:dataset_summary_record", "ceos_alos2.sar_leader.platform_position:platform_position_record",
+            "ceos_alos2.sar_leader.attitude:attitude_record", "ceos_alos2.sar_image.signal_data:signal_data_record",
+            "ceos_alos2.sar_image.processed_data:processed_data_record", "ceos_alos2.volume_directory.structure:volume_directory_record"],
+           bounds="forall admissible structure parameters (unbounded); 14 fields", call="props.c17:ob_fields"),
         Ob("C17.units", "N", "per-line time variables keep every stored digit: the datetime64 unit the line-metadata transformer stores them in divides one millisecond (ms stamp) / "
            "one microsecond (us stamp), so no value is truncated", ["ceos_alos2.sar_image.metadata:transform_line_metadata", "ceos_alos2.sar_image.metadata:apply_overrides"],
            bounds="forall ms 0..86399999 and us 0..86399999999 under the integer model of numpy's datetime -> datetime64[unit] conversion (floor to the unit; validated against numpy in "
@@ -95,6 +101,71 @@ def _pp_sweep(f):
                 if len(bad) > 5:
                     return bad
     return bad
+
+
+TIME_FIELDS = {
+    "sar_leader": [("dataset_summary", "scene_center_time"), ("platform_position", "datetime_of_first_point", "date"),
+                   ("platform_position", "datetime_of_first_point", "day_of_year"), ("platform_position", "datetime_of_first_point", "seconds_of_day"),
+                   ("attitude", "data_points", "*", "time", "day_of_year"), ("attitude", "data_points", "*", "time", "millisecond_of_day")],
+    "signal_data_record": [("sensor_acquisition_date", "year"), ("sensor_acquisition_date", "day_of_year"), ("sensor_acquisition_date", "milliseconds"),
+                           ("sensor_acquisition_date_microseconds",)],
+    "processed_data_record": [("sensor_acquisition_date", "year"), ("sensor_acquisition_date", "day_of_year"), ("sensor_acquisition_date", "milliseconds")],
+    "volume_directory": [("volume_descriptor", "logical_volume_creation_datetime")],
+}
+
+
+def ob_fields(tier):
+    """live offset / width (z3 terms over the structure parameters) and decoder chain of every time-bearing field vs the pinned layout"""
+    from vlib import layout
+    from vlib import layoutspec as LS
+    from vlib.smt import Session
+
+    S = Session()
+    spec = LS.load()
+    literal = []
+    for name, fields in TIME_FIELDS.items():
+        it, end, dom = LS.live(name)
+        assumptions = list(it.constraints) + list(dom)
+        for lf in it.leaves:
+            for idx, count, size in lf.idx:
+                assumptions += [idx >= 0, idx < count]
+        by = {}
+        for lf in it.leaves:
+            by.setdefault(tuple(str(p) for p in lf.path), lf)
+        pinned = {tuple(e["path"]): e for e in reversed(spec[name]["leaves"])}
+        for path in fields:
+            lf, e = by.get(path), pinned[path]
+            if lf is None:
+                literal.append({"what": "time field missing in the live layout", "field": name + ":" + ".".join(path)})
+                continue
+            for what, live_t, pin in (("offset", lf.off, e["off"]), ("width", lf.width, e["width"])):
+                live_t = live_t if z3.is_expr(live_t) else z3.IntVal(live_t)
+                S.holds(f"{name}:{'.'.join(path)}:{what}", assumptions, live_t == LS.build(pin["const"], pin["coeffs"]), show=[])
+            if layout.kind_json(lf.kind) != e["kind"]:
+                literal.append({"what": "decoder chain differs", "field": name + ":" + ".".join(path), "live": layout.kind_json(lf.kind), "pinned": e["kind"]})
+    res = S.result(fields=sum(len(v) for v in TIME_FIELDS.values()))
+    if literal:
+        res["verdict"] = "violated" if res["verdict"] != "inconclusive" else res["verdict"]
+        res["cex"] = list(res.get("cex", [])) + literal[:6]
+    if res["verdict"] == "violated":
+        # replay: files written from the pinned layout through the real parsers
+        from vlib import api
+        from vlib import specwriter as W
+
+        rep = api.pinned_leader_times()
+        bad = dict(rep["detail"])
+        for name in ("signal_data_record", "processed_data_record", "volume_directory"):
+            try:
+                wrong = [b for b in W.roundtrip(name) if any(b["field"] == ".".join(p) for p in TIME_FIELDS[name])]
+            except Exception as e:  # noqa: BLE001
+                wrong = [{"field": name, "error": type(e).__name__}]
+            for b in wrong:
+                bad[name + ":" + b["field"]] = str(b)[:120]
+        res["cex"] = {"model": res["cex"][:6], "replay": bad}
+        if not bad:
+            res.update(verdict="inconclusive", reason="time-field layout difference did not reproduce on files written from the pinned layout")
+        res["finding_key"] = "C17.fields:" + ",".join(sorted(bad))[:200]
+    return res
 
 
 _UNIT_NS = {"s": 10**9, "ms": 10**6, "us": 10**3, "ns": 1, "ps": None, "m": 60 * 10**9, "h": 3600 * 10**9, "D": 86400 * 10**9}
